@@ -1755,6 +1755,17 @@ impl Sessions {
         Ok(session)
     }
 
+    /// Validate and record the counter of an authenticated group *data* message in the
+    /// per-sender group counter store (trust-first). Returns `false` for a duplicate.
+    pub(crate) fn group_data_post_recv(
+        &mut self,
+        fab_idx: u8,
+        src_nodeid: u64,
+        msg_ctr: u32,
+    ) -> bool {
+        self.group_ctr_store.post_recv(fab_idx, src_nodeid, msg_ctr)
+    }
+
     /// Attempt to decrypt and accept a group-encrypted message.
     ///
     /// Handles two flavors of incoming group-encrypted packet:
